@@ -240,9 +240,12 @@ Definition prop_crash (input obs : val) : val :=
       let get_is (v : val) (d : bytes) := match vnth 1 v with VB g => bytes_eqb g d | _ => false end in
       let lookup (b : bytes * bytes) : val :=
         match find (fun pr => block_eqb b (fst pr)) pairs with Some pr => snd pr | None => VL [] end in
+      (* a section above MaxAllowedSectionSize can be put but Get refuses to read it back: outside
+         C06_crash_safe_guarded's hypothesis on what is put (as in C04); only Has is required *)
+      let over (b : bytes * bytes) := w_maxs o <? blen (fst b) + blen (snd b) in
       if negb (forallb (fun b => has_of (lookup b)) acked) then fail "acked-block-missing" cl
-      else if negb (forallb (fun b => get_is (lookup b) (snd b)) acked) then fail "acked-block-corrupt" cl
-      else if negb (forallb (fun pr => negb (has_of (snd pr)) || get_is (snd pr) (snd (fst pr))) pairs)
+      else if negb (forallb (fun b => over b || get_is (lookup b) (snd b)) acked) then fail "acked-block-corrupt" cl
+      else if negb (forallb (fun pr => negb (has_of (snd pr)) || over (fst pr) || get_is (snd pr) (snd (fst pr))) pairs)
       then fail "stored-block-corrupt" cl
       else if (match vnth 2 out with
                | VL ks => negb (forallb (fun kc =>
